@@ -1298,6 +1298,31 @@ def m_infrastructure(seed):
     return Model(sim, [src, *ents])
 
 
+@model("default-built-registries", explicit_seeds=True)
+def m_default_built_registries(seed):
+    """Components built with their DEFAULT container arguments and filled through their public mutators while
+    the run goes on (mini round 6): what one instance learns must not reach the instance of the next build
+    (rerun / prior-activity dimensions).  DNSResolver without ``records=``: lookups of hosts that are registered
+    only later in the run, so the answers depend on exactly the records this instance was given."""
+    from happysimulator import DNSRecord, DNSResolver
+    dns = DNSResolver("dns", cache_capacity=2)
+    r = random.Random(seed)
+
+    def work(self, event):
+        i = self.calls
+        host = f"svc-{r.randrange(6)}.example.com"
+        ip = yield from dns.resolve(host)
+        self.notes.append((self.now.nanoseconds, host, ip))
+        if i % 3 == 2:
+            k = i // 3
+            dns.add_record(DNSRecord(hostname=f"svc-{k % 6}.example.com", ip_address=f"10.1.0.{k}", ttl_s=0.15))
+
+    worker = Script("worker", work)
+    src = Source.constant(rate=20.0, target=worker, event_type="job", stop_after=1.0, name="src")
+    sim = Simulation(sources=[src], entities=[worker, dns], end_time=Instant.from_seconds(3.0))
+    return Model(sim, [src, worker, dns], extra=lambda: worker.notes)
+
+
 @model("scheduling")
 def m_scheduling(seed):
     from happysimulator import JobDefinition, JobScheduler, WorkStealingPool
